@@ -311,6 +311,14 @@ def _stub_gap(e):
     """The code under test asked a harness stub for something the stub does not provide (an attribute it lacks, a call
     signature it does not accept).  That is an incomplete harness, not a property violation: report it as inconclusive."""
     if isinstance(e, AttributeError):
+        tb = e.__traceback__
+        last = None
+        while tb is not None:
+            last = tb
+            tb = tb.tb_next
+        if last is not None and "/harness/" in last.tb_frame.f_code.co_filename:
+            # the harness itself looked up a name the code under test no longer has (renamed / removed entry point)
+            return "the harness refers to %r, which the code under test does not provide: %s" % (getattr(e, "name", "?"), e)
         obj = getattr(e, "obj", None)
         if obj is not None:
             t = obj if isinstance(obj, type) else type(obj)
@@ -322,6 +330,14 @@ def _stub_gap(e):
         head = msg.split("(", 1)[0]
         if "got an unexpected keyword" in msg or "positional argument" in msg or "required" in msg:
             import sys
+            tb = e.__traceback__
+            last = None
+            while tb is not None:
+                last = tb
+                tb = tb.tb_next
+            if last is not None and "/harness/" in last.tb_frame.f_code.co_filename:
+                # raised at a call made BY the harness (the callee never started): the entry point's signature changed
+                return "the harness calls %s with a signature the code under test no longer has: %s" % (head, msg)
             first = head.strip().split(".")[0]
             for name, mod in list(sys.modules.items()):
                 if name.startswith("harness.") and mod is not None and first and hasattr(mod, first):
